@@ -294,7 +294,15 @@ class Unit(Domain):
             z = a if _poly(a) else b
             if z is not ZERO and not d.dimensionless and lit is not None and not _is_zero(lit):
                 fr = it.frames[-1].func
-                self.dimconst.append((fr.mod.rel, getattr(node, "lineno", 0), fr.qual, unparse(lit)[:40], d))
+                txt = unparse(lit)[:40]
+                # a module-level numeric constant is reported with its value: the set of inputs for which the
+                # dimensional constant matters depends on it, so a finding keyed on `tol` alone would also
+                # cover `tol` raised by four orders of magnitude
+                if isinstance(lit, ast.Name):
+                    asg = fr.mod.global_assigns.get(lit.id, [])
+                    if len(asg) == 1 and isinstance(asg[0], ast.Assign) and isinstance(asg[0].value, ast.Constant) and isinstance(asg[0].value.value, (int, float)) and not isinstance(asg[0].value.value, bool):
+                        txt = "%s=%r" % (txt, asg[0].value.value)
+                self.dimconst.append((fr.mod.rel, getattr(node, "lineno", 0), fr.qual, txt, d))
             return d
         if a != b:
             self.conflict(it, node, "add", "combines quantities of dimension [%s] and [%s] with + / - / comparison: %s" % (a, b, " ".join(unparse(node).split())[:90]))
